@@ -26,6 +26,13 @@ fn gen_pssm<A: Abc>(rng: &mut impl Rng, m: usize, kind: usize) -> Vec<Vec<i64>> 
                 .collect();
             // wildcard column: -inf (what the library produces), or occasionally a finite value
             row.push(if rng.gen_bool(0.85) { NINF } else { rng.gen_range(-45..=35) });
+            if kind % 4 != 3 && kind % 5 == 2 && rng.gen_bool(0.4) {
+                // a spacer position of a bipartite motif: flat over the regular symbols, "unknown base" scoring a little more
+                let v = row[0].min(0);
+                for x in row.iter_mut() { *x = v; }
+                let k = row.len();
+                row[k - 1] = v + rng.gen_range(1..=8);
+            }
             row
         })
         .collect()
@@ -41,7 +48,10 @@ fn consensus(pssm: &[Vec<i64>], k: usize, best: bool) -> Vec<usize> {
 }
 
 fn gen_seq<A: Abc>(rng: &mut impl Rng, l: usize, pssm: &[Vec<i64>]) -> Vec<usize> {
-    let pw = if rng.gen_bool(0.3) { 0.1 } else { 0.0 };
+    // matrices with a spacer row whose wildcard scores higher are scanned over texts rich in wildcards
+    let k = A::KK;
+    let spacer = pssm.iter().any(|r| r[..k - 1].iter().all(|&x| x == r[0]) && r[k - 1] != NINF && r[k - 1] > r[0]);
+    let pw = if spacer { 0.25 } else if rng.gen_bool(0.3) { 0.1 } else { 0.0 };
     let mut s = random_ranks::<A>(rng, l, pw);
     let m = pssm.len();
     // plant the consensus (maximum scoring) and anti-consensus words
